@@ -43,7 +43,7 @@ open KcpVerif.Gen KcpVerif.AutoTune KcpVerif.Fec KcpVerif.Lemmas.AutoTune
 
 /-! ## the period detector -/
 
-private theorem count_small {t : Tune} (hl : t.count ≤ maxAutoTuneSamples) : t.count ≤ 2 ^ 31 := by
+theorem C16_aux_count_small {t : Tune} (hl : t.count ≤ maxAutoTuneSamples) : t.count ≤ 2 ^ 31 := by
   have : maxAutoTuneSamples ≤ 2 ^ 31 := by decide
   omega
 
@@ -54,8 +54,8 @@ theorem C16_findPeriod_sound {d p s : Nat} {t : Tune} (hd : 0 < d) (hp : 0 < p)
     (hw : t.window = run d p s t.count) (h : s + t.count ≤ 2 ^ 32) :
     (t.findPeriod true = -1 ∨ t.findPeriod true = (d : Int)) ∧
     (t.findPeriod false = -1 ∨ t.findPeriod false = (p : Int)) :=
-  ⟨findPeriod_true_sound hd hp hc hw h (count_small hl),
-   findPeriod_false_sound hd hp hc hw h (count_small hl)⟩
+  ⟨findPeriod_true_sound hd hp hc hw h (C16_aux_count_small hl),
+   findPeriod_false_sound hd hp hc hw h (C16_aux_count_small hl)⟩
 
 /-- `findPeriod_complete`, as an equivalence: the data width is found iff the first group start
     after the window start, plus `d`, lies inside the window; the parity width iff the first
@@ -67,8 +67,8 @@ theorem C16_findPeriod_complete {d p s : Nat} {t : Tune} (hd : 0 < d) (hp : 0 < 
     (t.findPeriod false = (p : Int) ↔
       (if s % (d + p) < d then s + (d - s % (d + p)) else s + ((d + p) - s % (d + p)) + d) + p
         < s + t.count) :=
-  ⟨findPeriod_true_iff hd hp hc hw h (count_small hl),
-   findPeriod_false_iff hd hp hc hw h (count_small hl)⟩
+  ⟨findPeriod_true_iff hd hp hc hw h (C16_aux_count_small hl),
+   findPeriod_false_iff hd hp hc hw h (C16_aux_count_small hl)⟩
 
 -- non-vacuity: a fresh ring fed 20 samples of a 3/2 sender from id 7 finds both widths
 example : (feed Tune.init (run 3 2 7 20)).findPeriod true = 3 ∧
@@ -96,10 +96,10 @@ theorem C16_findPeriod_complete_aligned {d p s : Nat} {t : Tune} (hd : 0 < d) (h
 
 /-! ## the ring is a sliding window -/
 
-private theorem window_length (t : Tune) : t.window.length = t.count := by
+theorem C16_aux_window_length (t : Tune) : t.window.length = t.count := by
   simp only [Tune.window, List.length_map, List.length_range]
 
-private theorem feed_window_gen {t : Tune} (h : t.WF) (l : List Pulse) :
+theorem C16_aux_feed_window_gen {t : Tune} (h : t.WF) (l : List Pulse) :
     (feed t l).count = min (t.count + l.length) maxAutoTuneSamples ∧
     (feed t l).window = (t.window ++ l).drop (t.count + l.length - maxAutoTuneSamples) := by
   induction l generalizing t with
@@ -129,7 +129,7 @@ private theorem feed_window_gen {t : Tune} (h : t.WF) (l : List Pulse) :
       rw [hcs]
       refine ⟨by simp only [List.length_cons]; omega, ?_⟩
       have hpos : 0 < maxAutoTuneSamples := by decide
-      have hwl := window_length t
+      have hwl := C16_aux_window_length t
       have hd1 : (t.window ++ [x]).drop 1 ++ l = (t.window ++ [x] ++ l).drop 1 := by
         have h1 : 1 ≤ t.window.length := by omega
         rw [List.append_assoc, List.drop_append_of_le_length h1, List.drop_append_of_le_length h1,
@@ -140,12 +140,12 @@ private theorem feed_window_gen {t : Tune} (h : t.WF) (l : List Pulse) :
         omega
       rw [e]
 
-private theorem run_drop (d p : Nat) : ∀ (k s len : Nat), (run d p s len).drop k = run d p (s + k) (len - k)
+theorem C16_aux_run_drop (d p : Nat) : ∀ (k s len : Nat), (run d p s len).drop k = run d p (s + k) (len - k)
   | 0, s, len => by simp only [List.drop_zero, Nat.add_zero, Nat.sub_zero]
   | k + 1, s, 0 => by simp only [run, List.drop_nil, Nat.zero_sub]
   | k + 1, s, len + 1 => by
     simp only [run, List.drop_succ_cons]
-    rw [run_drop d p k (s + 1) len]
+    rw [C16_aux_run_drop d p k (s + 1) len]
     have e1 : s + 1 + k = s + (k + 1) := by omega
     have e2 : len + 1 - (k + 1) = len - k := by omega
     rw [e1, e2]
@@ -156,14 +156,14 @@ private theorem run_drop (d p : Nat) : ∀ (k s len : Nat), (run d p s len).drop
 theorem C16_window_flushes {t : Tune} (h : t.WF) (d p s len : Nat) (hlen : maxAutoTuneSamples ≤ len) :
     (feed t (run d p s len)).count = maxAutoTuneSamples ∧
     (feed t (run d p s len)).window = run d p (s + (len - maxAutoTuneSamples)) maxAutoTuneSamples := by
-  obtain ⟨hc, hw⟩ := feed_window_gen h (run d p s len)
+  obtain ⟨hc, hw⟩ := C16_aux_feed_window_gen h (run d p s len)
   have hcount := h.2.2.2.1
   rw [length_run] at hc hw
   refine ⟨by omega, ?_⟩
   rw [hw]
   have hsplit : t.count + len - maxAutoTuneSamples = t.window.length + (len - maxAutoTuneSamples) := by
-    rw [window_length]; omega
-  rw [hsplit, ← List.drop_drop, List.drop_left' rfl, run_drop]
+    rw [C16_aux_window_length]; omega
+  rw [hsplit, ← List.drop_drop, List.drop_left' rfl, C16_aux_run_drop]
   have e : len - (len - maxAutoTuneSamples) = maxAutoTuneSamples := by omega
   rw [e]
 
@@ -180,14 +180,14 @@ example : (feed (feed Tune.init [⟨true, 99#32⟩, ⟨false, 5#32⟩, ⟨true, 
 def TypeMatches (dec : Decoder) (inp : Bytes) : Prop :=
   (posOf dec.n inp < dec.d ∧ flag inp = typeData) ∨ (¬ posOf dec.n inp < dec.d ∧ flag inp = typeParity)
 
-private theorem mismatch_false {dec : Decoder} {inp : Bytes} (h : TypeMatches dec inp) :
+theorem C16_aux_mismatch_false {dec : Decoder} {inp : Bytes} (h : TypeMatches dec inp) :
     mismatch dec inp = false := by
   unfold mismatch
   rcases h with ⟨h1, h2⟩ | ⟨h1, h2⟩
   · simp only [h1, if_true, h2, bne_self_eq_false]
   · simp only [h1, if_false, h2, bne_self_eq_false]
 
-private theorem mismatch_true {dec : Decoder} {inp : Bytes} (h : ¬ TypeMatches dec inp)
+theorem C16_aux_mismatch_true {dec : Decoder} {inp : Bytes} (h : ¬ TypeMatches dec inp)
     (hf : flag inp = typeData ∨ flag inp = typeParity) : mismatch dec inp = true := by
   unfold mismatch TypeMatches at *
   have hne : (typeData : Nat) ≠ typeParity := by decide
@@ -220,7 +220,7 @@ theorem C16_stable_step (C : CodecNew) (dec : Decoder) (inp : Bytes)
       · rename_i h
         exfalso
         rcases (Bool.or_eq_true _ _).mp h with h | h
-        · exact Bool.noConfusion ((mismatch_false (show TypeMatches _ inp from hm)).symm.trans h)
+        · exact Bool.noConfusion ((C16_aux_mismatch_false (show TypeMatches _ inp from hm)).symm.trans h)
         · exact Bool.noConfusion (ht.symm.trans h)
       · split <;> exact ⟨rfl, rfl, rfl, rfl, rfl⟩
 
@@ -285,7 +285,7 @@ theorem C16_mismatch_enters_tuning (C : CodecNew) (dec : Decoder) (inp : Bytes)
         apply h
         apply (Bool.or_eq_true _ _).mpr
         left
-        exact mismatch_true (show ¬ TypeMatches _ inp from hm) hf
+        exact C16_aux_mismatch_true (show ¬ TypeMatches _ inp from hm) hf
 
 /-- in the tuning branch `shouldTune` stays set until a consistent period is found: the result of
     `retune` either has `shouldTune = true` and the old ratio, or the ratio is the pair of detected
